@@ -170,7 +170,8 @@ Inductive hexpr :=
 | HAgg (op : aggop) (c : cexpr)          (* op(component expression) over the group *)
 | HCount                                  (* count() *)
 | HLit (v : val)
-| HBin (op : binop) (a b : hexpr).        (* comparison / boolean / arithmetic on group values *)
+| HBin (op : binop) (a b : hexpr)         (* comparison / boolean / arithmetic on group values *)
+| HUn (op : unop) (a : hexpr).            (* not, isnull, … on a group value *)
 
 Fixpoint heval (d : dset) (grp : list arow) (h : hexpr) : res val :=
   match h with
@@ -178,6 +179,7 @@ Fixpoint heval (d : dset) (grp : list arow) (h : hexpr) : res val :=
   | HCount => Ok (count_any d grp)
   | HLit v => Ok v
   | HBin op a b => bind (heval d grp a) (fun x => bind (heval d grp b) (fun y => binop_val op x y))
+  | HUn op a => bind (heval d grp a) (unop_val op)
   end.
 
 (* a group is kept iff its having condition is TRUE (false and null drop it) *)
@@ -221,7 +223,8 @@ Definition is_nil {A} (l : list A) : bool := match l with [] => true | _ => fals
 
 (* standalone form  op(DS group …  having …): EVERY measure is aggregated; count gives the single measure int_var =
    number of datapoints of the group whose measures are all non-null, NULLIF(…,0) only when grouping identifiers remain.
-   With identifiers in the operand and none left, an empty operand gives NO datapoint (HAVING COUNT( * ) > 0). *)
+   With identifiers in the operand and none left, an empty operand gives NO datapoint (HAVING COUNT( * ) > 0).
+   Every operator but count/min/max needs a measure (1-1-1-8); min/max need a measure or a remaining identifier. *)
 Definition d_aggr (op : aggop) (d : dset) (g : grouping) (hav : option hexpr) : res dset :=
   match op with
   | ACount =>
@@ -229,6 +232,9 @@ Definition d_aggr (op : aggop) (d : dset) (g : grouping) (hav : option hexpr) : 
         (fun grp => Ok [if is_nil (group_ids (d_ids d) g) then VInt (Z.of_nat (count_all grp)) else nullif0 (count_all grp)])
   | _ =>
       if is_nil (d_ms d) && negb (match op with AMin | AMax => true | _ => false end) then Err "1-1-1-8" else
+      (* min / max accept an operand without measures (the result is the set of groups), but not when no grouping
+         identifier is left either: the result would have no component at all *)
+      if is_nil (d_ms d) && is_nil (group_ids (d_ids d) g) then bind (check_grouping d g) (fun _ => Err "1-1-1-8") else
       aggregate d g (is_nil (d_ids d)) hav (d_ms d)
         (fun grp => mapM (agg_vals op) (columns (length (d_ms d)) grp))
   end.
